@@ -92,8 +92,17 @@ class EpisodeSim:
         for p in self.perturbs:
             if p["kind"] == "alternate":
                 self._alternate(env, p)
+        store = None
+        for p in self.perturbs:
+            if p["kind"] == "reuse_store":
+                # the instances live in one stored TensorDict (a dataset); episodes are reset from SLICES of
+                # it, which share its storage.  A complete earlier episode on the same slices must leave the
+                # stored instances untouched (in-place writes through aliased storage)
+                if store is None:
+                    store = E.batch_of(cfg, [{k: v.clone() for k, v in r.items()} for r in self.rows])
+                self._throwaway(env, store[0:len(self.rows)], p)
         with run.guard(name, "reset", B=len(self.rows)):
-            td = E.reset(env, cfg, self.rows)
+            td = env.reset(store[0:len(self.rows)]) if store is not None else E.reset(env, cfg, self.rows)
         B = len(self.rows)
         refs = [get_ref(name, r, cfg) for r in self.rows]
         src = list(range(B))          # src[pos] = original row index
@@ -110,7 +119,7 @@ class EpisodeSim:
         prev_done = E.done_vec(td).clone()
         while True:
             for p in self.perturbs:
-                if p["at"] != t or p.get("fired") or p["kind"] == "alternate":
+                if p["at"] != t or p.get("fired") or p["kind"] in ("alternate", "reuse_store"):
                     continue
                 if bool(E.done_vec(td).all()):
                     continue
@@ -289,6 +298,25 @@ class EpisodeSim:
             run.log.add("rewards", phase, [float(x).hex() for x in rew.tolist()])
         run.log.add("final", phase, hist, done_at)
 
+    def _throwaway(self, env, td_in, p):
+        run, name, cfg = self.run, self.name, self.cfg
+        with run.guard(name, "earlier episode on the stored instances: reset"):
+            td = env.reset(td_in)
+        cap = D.step_bound_generic(cfg, td)
+        t = 0
+        while not bool(E.done_vec(td).all()) and t < cap:
+            acts = []
+            for r in range(td.batch_size[0]):
+                opts = D.admitted(td["action_mask"][r])
+                if not opts:
+                    return
+                acts.append(D.choose(run, "uniform", td, r, opts))
+            with run.guard(name, "earlier episode on the stored instances: step"):
+                td = E.step(env, td, torch.tensor(acts))
+            t += 1
+        run.fault("reuse_store")
+        run.nontrivial = True
+
     def _alternate(self, env, p):
         run, name, cfg = self.run, self.name, self.cfg
         b = 1 + p["seed"] % 3
@@ -393,7 +421,7 @@ class C01:
 
     @staticmethod
     def make_plan(run_seed, tier):
-        return _plan(run_seed, tier, E.ROUTING, ["reindex", "snapshot", "alternate"])
+        return _plan(run_seed, tier, E.ROUTING, ["reindex", "snapshot", "alternate", "reuse_store"])
 
     @staticmethod
     def execute(run):
@@ -422,7 +450,7 @@ class C02:
 
     @staticmethod
     def make_plan(run_seed, tier):
-        p = _plan(run_seed, tier, E.ALL_CONSTRUCTIVE, ["reindex", "snapshot", "alternate", "env_restart"], 0.6)
+        p = _plan(run_seed, tier, E.ALL_CONSTRUCTIVE, ["reindex", "snapshot", "alternate", "env_restart", "reuse_store"], 0.6)
         p["lib_rollout"] = Streams(run_seed).get("config2").random() < 0.5
         return p
 
@@ -490,7 +518,7 @@ class C03:
 
     @staticmethod
     def make_plan(run_seed, tier):
-        return _plan(run_seed, tier, C03.ENVS, ["reindex", "snapshot", "alternate"])
+        return _plan(run_seed, tier, C03.ENVS, ["reindex", "snapshot", "alternate", "reuse_store"])
 
     @staticmethod
     def execute(run):
